@@ -268,16 +268,38 @@ inline json preamble_out(FilePreamble& fp) {
     return j;
 }
 
-// Everything the library's own reader returns for a byte string, in the same shape
-inline json reader_dump(const std::string& bytes) {
+// A FilePreamble object the application keeps and reads one file after the other into (FilePreamble::read is public API)
+inline FilePreamble& reused_preamble() { static thread_local FilePreamble fp; return fp; }      // (one per thread of a driver)
+
+// Everything the library's own reader returns for a byte string, in the same shape.
+// moved_after >= 0: the reader is handed on (move construction) after that many blocks, the rest is read through the new
+// object (the old one stays alive, untouched).
+inline json reader_dump(const std::string& bytes, int moved_after = -1) {
     json out = json::object();
     json blocks = json::array();
     try {
         std::istringstream is(bytes, std::ios::binary);
-        CdnsReader reader(is);
-        out["preamble"] = preamble_out(reader.m_file_preamble);
+        std::unique_ptr<CdnsReader> first(new CdnsReader(is)), second;
+        CdnsReader* rp = first.get();
+        out["preamble"] = preamble_out(rp->m_file_preamble);
+        if (moved_after < 0) {
+            // the same preamble once more, read into an object that has read other files before
+            try {
+                std::istringstream is2(bytes, std::ios::binary);
+                CdnsDecoder d2(is2);
+                bool indef = false;
+                d2.read_array_start(indef);
+                d2.read_textstring();
+                reused_preamble().read(d2);
+                out["preamble_reused"] = preamble_out(reused_preamble());
+            } catch (std::exception&) {}
+        }
         bool eof = false;
+        int nread = 0;
         while (true) {
+            if (moved_after >= 0 && nread == moved_after && !second) { second.reset(new CdnsReader(std::move(*first))); rp = second.get(); }
+            CdnsReader& reader = *rp;
+            nread++;
             CdnsBlockRead blk = reader.read_block(eof);
             if (eof) break;
             json b = json::object();
@@ -297,7 +319,7 @@ inline json reader_dump(const std::string& bytes) {
         json after = json::array();
         for (int k = 0; k < 2; k++) {
             bool e2 = false;
-            CdnsBlockRead blk = reader.read_block(e2);
+            CdnsBlockRead blk = rp->read_block(e2);
             after.push_back(json::array({e2, blk.get_item_count()}));
         }
         out["after"] = after;
